@@ -16,6 +16,10 @@ package main
 
 import (
 	"fmt"
+	goast "go/ast"
+	goparser "go/parser"
+	gotoken "go/token"
+	"go/types"
 	"os"
 	"path/filepath"
 	"sort"
@@ -24,6 +28,8 @@ import (
 	"sync"
 	"sync/atomic"
 	"time"
+
+	"github.com/goplus/gogen/packages"
 
 	"verifharness/hlib"
 	"verifharness/xgolib"
@@ -135,6 +141,7 @@ type batcher struct {
 	stats  batchStats
 	mu     sync.Mutex
 	t0     time.Time
+	goImp  types.Importer
 }
 
 func (b *batcher) logf(format string, a ...any) {
@@ -189,9 +196,33 @@ func (b *batcher) compileAlone(us []unit) map[int]outcome {
 			bad[u.Idx] = outcome{Kind: "compile-panic", Detail: fmt.Sprint(o.Panic)}
 		} else if o.Err != nil {
 			bad[u.Idx] = outcome{Kind: "compile-error", Detail: o.Stage + ": " + xgolib.ErrString(o.Err)}
+		} else if msg := b.goTypeCheck(o.Go); msg != "" {
+			// the compiler succeeded but its output is not valid Go: `go build` of a batch would fail
+			bad[u.Idx] = outcome{Kind: "go-build-error", Detail: msg}
 		}
 	}
 	return bad
+}
+
+// goTypeCheck type-checks generated Go source in-process (go/types reports what `go build` reports
+// before code generation, incl. unused variables); "" = fine.
+func (b *batcher) goTypeCheck(src string) string {
+	if b.goImp == nil {
+		b.goImp = packages.NewImporter(gotoken.NewFileSet())
+	}
+	fset := gotoken.NewFileSet()
+	f, err := goparser.ParseFile(fset, "main.go", src, 0)
+	if err != nil {
+		return "go/parser: " + err.Error()
+	}
+	var first string
+	conf := types.Config{Importer: b.goImp, Error: func(e error) {
+		if first == "" {
+			first = e.Error()
+		}
+	}}
+	conf.Check("main", fset, []*goast.File{f}, nil)
+	return first
 }
 
 // runProgram builds and runs one program made of us; on build failure / time-out it bisects.
@@ -279,7 +310,7 @@ func (b *batcher) run(us []unit) (xres, gres map[int]outcome) {
 		} else {
 			good = append(good, u)
 		}
-		if u.Go != "" {
+		if u.Go != "" && !goOracleOff() {
 			withGo = append(withGo, u)
 		}
 	}
@@ -328,6 +359,10 @@ func sortedKeys(m map[string]int) []string {
 	sort.Strings(ks)
 	return ks
 }
+
+// goOracleOff: SEMH_NO_GO_ORACLE=1 skips the explicit-Go-expansion oracle (only used to demonstrate that a
+// corrupted model expectation is rejected by the comparison with the real XGo pipeline as well).
+func goOracleOff() bool { return os.Getenv("SEMH_NO_GO_ORACLE") != "" }
 
 // oracleDisagreement aborts the run: the TLA+ model and the explicit Go expansion (two oracles that
 // must agree) differ on a case, which is a bug in the spec or in the expansion -- never an alarm.
